@@ -107,6 +107,14 @@ func (v *Voter) Verify(proposal *hotstuff.ProposeMsg) (err error) {
 	if err := v.auth.VerifyAnyQC(proposal); err != nil {
 		return err
 	}
+	// the block must directly extend the block certified by its quorum certificate.
+	qc := proposal.Block.QuorumCert()
+	if proposal.Block.Parent() != qc.BlockHash() {
+		return fmt.Errorf("block parent %s is not the block certified by its QC %s", proposal.Block.Parent().SmallString(), qc.BlockHash().SmallString())
+	}
+	if blockView <= qc.View() {
+		return fmt.Errorf("block view %d is not higher than its QC view %d", blockView, qc.View())
+	}
 	// ensure the block came from the expected leader.
 	leaderID := v.leaderRotation.GetLeader(blockView)
 	if proposal.ID != leaderID {
